@@ -604,7 +604,7 @@ func currentOrLogged(srv *kit.Server, key, rv string) metav1Object {
 func init() {
 	register("E9", func(tier string, seed uint64) []Case {
 		var cases []Case
-		for i := 0; i < tierPick(tier, 120, 3000); i++ {
+		for i := 0; i < tierPick(tier, 120, 10000); i++ {
 			cases = append(cases, e9CtlCase(seed, i))
 		}
 		for i := 0; i < tierPick(tier, 4, 40); i++ {
